@@ -98,6 +98,11 @@ Step ==
          /\ bad' = IF Cur.a > 0 THEN "NoOrphanPool" ELSE "none"
          /\ drift' = "none"
          /\ UNCHANGED <<cnt, fil, clo>>
+    [] e = "h_replenish" ->   \* queries kept arriving after the schedule: connections of an open pool (a) vs its size
+         /\ bad' = IF ~Cur.closed /\ Cur.a < Cur.size THEN "Replenished"
+                   ELSE IF Cur.a > Cur.size THEN "SizeBound" ELSE "none"
+         /\ drift' = "none"
+         /\ UNCHANGED <<cnt, fil, clo>>
     [] e = "h_final" ->    \* the pool has been closed and everything has settled
          /\ bad' = IF open # {} THEN "NoLeakAfterClose" ELSE IF conns # {} THEN "ClosedEmpty" ELSE "none"
          /\ drift' = "none"
